@@ -18,6 +18,9 @@ struct Case {
     /// statements executed after loading (key-changing UPDATEs, a DELETE + re-INSERT): the table
     /// state the property quantifies over is reached by a history, not only by INSERTs
     pre: Vec<String>,
+    /// statements inside BEGIN … SAVEPOINT … ROLLBACK TO SAVEPOINT … COMMIT, run after `pre`: the
+    /// table's contents are the same afterwards, the physical row order may not be
+    txn_pre: Vec<String>,
     /// rows after `pre` (what the table holds when the statement under test runs)
     rows: Vec<Vec<Lit>>,
     /// key values that were held by some row earlier in the history and are free now
@@ -60,10 +63,29 @@ fn setup(c: &Case) -> (Db, String) {
             script.push_str(&format!("  => {}   <-- HISTORY STEP DID NOT CHANGE EXACTLY ONE ROW\n", o.brief()));
         }
     }
+    if !c.txn_pre.is_empty() {
+        let before = db.scan(&c.schema.table).map(|r| { let mut v = canon_rows(&r); v.sort(); v });
+        for sql in &c.txn_pre {
+            let o = db.exec(sql);
+            script.push_str(&format!("{};\n", sql));
+            if !o.is_ok() {
+                script.push_str(&format!("  => {}   <-- ROLLED-BACK SPAN: STATEMENT FAILED\n", o.brief()));
+            }
+        }
+        let after = db.scan(&c.schema.table).map(|r| { let mut v = canon_rows(&r); v.sort(); v });
+        if before != after {
+            script.push_str("  <-- ROLLED-BACK SPAN CHANGED THE TABLE CONTENTS\n");
+        }
+    }
     (db, script)
 }
 
 fn history_failed(script: &str, rep: &mut Report) -> bool {
+    if script.contains("ROLLED-BACK SPAN") {
+        rep.case(script, true);
+        rep.fail(FailKind::Oracle, None, "BEGIN; SAVEPOINT; DML; ROLLBACK TO SAVEPOINT; COMMIT failed or changed the table contents (history before the statement under test)", script);
+        return true;
+    }
     if script.contains("HISTORY STEP DID NOT CHANGE EXACTLY ONE ROW") {
         rep.case(script, true);
         rep.fail(FailKind::Oracle, None, "UPDATE … SET id = <unused key> WHERE id = <existing key> did not change exactly that one row", script);
@@ -74,6 +96,18 @@ fn history_failed(script: &str, rep: &mut Report) -> bool {
 
 fn canon_rows(rows: &[Vec<SqlValue>]) -> Vec<String> {
     rows.iter().map(|r| canon::row(r)).collect()
+}
+
+/// sequence equality; after a rolled-back span the physical row order is the engine's business,
+/// so then multiset equality
+fn same_rows(c: &Case, a: &[String], b: &[String]) -> bool {
+    if c.txn_pre.is_empty() {
+        return a == b;
+    }
+    let (mut x, mut y) = (a.to_vec(), b.to_vec());
+    x.sort();
+    y.sort();
+    x == y
 }
 
 fn model_rows(sx: &Sx) -> Vec<String> {
@@ -121,7 +155,24 @@ fn gen_case(r: &mut Rng) -> Case {
             stale_ids.push(old);
         }
     }
-    Case { schema, pk_type, loaded, pre, rows, stale_ids }
+    // a rolled-back span: the contents stay, the storage (row order, index positions) is shaken
+    let mut txn_pre = vec![];
+    if !rows.is_empty() && r.chance(1, 3) {
+        txn_pre.push("BEGIN".to_string());
+        txn_pre.push("SAVEPOINT sp".to_string());
+        for _ in 0..r.range(1, 3) {
+            let i = r.below(rows.len() as u64) as usize;
+            let id = match rows[i][0] { Lit::I(x) => x, _ => continue };
+            match r.below(4) {
+                0 | 1 => txn_pre.push(format!("UPDATE t SET c1 = {} WHERE id = {}", Lit::I(r.range(50, 60)).sql(), Lit::I(id).sql())),
+                2 => txn_pre.push(format!("DELETE FROM t WHERE id = {}", Lit::I(id).sql())),
+                _ => txn_pre.push(format!("UPDATE t SET c1 = c1 WHERE id >= {}", Lit::I(id).sql())),
+            }
+        }
+        txn_pre.push("ROLLBACK TO SAVEPOINT sp".to_string());
+        txn_pre.push("COMMIT".to_string());
+    }
+    Case { schema, pk_type, loaded, pre, txn_pre, rows, stale_ids }
 }
 
 /// WHERE predicate as SQL + model expression + a label; covers the fast path and its neighbours
@@ -206,7 +257,7 @@ fn run_delete(c: &Case, r: &mut Rng, model: &mut model::Model, rep: &mut Report)
     match Sx::parse(&reply) {
         Some(Sx::List(v)) if v.len() == 3 && v[0].as_atom() == Some("delete") => {
             let mc: usize = v[1].as_atom().and_then(|x| x.parse().ok()).unwrap_or(usize::MAX);
-            if mc != n || model_rows(&v[2]) != canon_rows(&post) {
+            if mc != n || !same_rows(c, &model_rows(&v[2]), &canon_rows(&post)) {
                 rep.fail(FailKind::ModelDiff, None, "DELETE: model and engine differ", &replay(&format!("-- model: {}", reply)));
             }
         }
@@ -220,7 +271,7 @@ fn run_delete(c: &Case, r: &mut Rng, model: &mut model::Model, rep: &mut Report)
                 let same = if label == "pk_eq_literal" && c.pk_type == "INTEGER" { "1" } else { "0" };
                 let reply = model.ask(&format!("deletepk 0 {} {} {}", rows_sx(&c.rows), lit, same));
                 if let Some(Sx::List(v)) = Sx::parse(&reply) {
-                    if v.len() == 3 && (v[1].as_atom().and_then(|x| x.parse::<usize>().ok()) != Some(n) || model_rows(&v[2]) != canon_rows(&post)) {
+                    if v.len() == 3 && (v[1].as_atom().and_then(|x| x.parse::<usize>().ok()) != Some(n) || !same_rows(c, &model_rows(&v[2]), &canon_rows(&post))) {
                         rep.fail(FailKind::ModelDiff, None, "DELETE by primary key: fast-path model and engine differ", &replay(&format!("-- model: {}", reply)));
                     }
                 }
@@ -301,7 +352,7 @@ fn run_update(c: &Case, r: &mut Rng, model: &mut model::Model, rep: &mut Report)
             match Sx::parse(&reply) {
                 Some(Sx::List(v)) if v.len() == 3 && v[0].as_atom() == Some("update") => {
                     let mc: usize = v[1].as_atom().and_then(|x| x.parse().ok()).unwrap_or(usize::MAX);
-                    if mc != *n || model_rows(&v[2]) != canon_rows(&post) {
+                    if mc != *n || !same_rows(c, &model_rows(&v[2]), &canon_rows(&post)) {
                         rep.fail(FailKind::ModelDiff, None, "UPDATE: model and engine differ", &replay(&format!("-- model: {}", reply)));
                     }
                 }
